@@ -40,7 +40,7 @@ def check_c14(root, counters=None):
             if isinstance(r.operation, (R.Identity, R.PartialJoin)):
                 errs.append(("placeholder_operation_as_node", short(r)))
             for e in exprs_of(r.operation):
-                if not e.is_supported_by(r.engine):
+                if not interp.supported_by(e, r.engine):
                     errs.append(("expression_not_supported_by_node_engine", f"{e} in {short(r)} engine {r.engine}"))
         elif isinstance(r, R.BinaryOperationRelation):
             if r.lhs.engine is not r.rhs.engine:
@@ -57,7 +57,7 @@ def check_c14(root, counters=None):
                         errs.append(("join_common_columns_missing_from_operand", short(r)))
                     if not all(t.is_key for t in cc):
                         errs.append(("join_common_column_not_key", short(r)))
-                if not r.operation.predicate.is_supported_by(r.engine):
+                if not interp.supported_by(r.operation.predicate, r.engine):
                     errs.append(("expression_not_supported_by_node_engine", f"{r.operation.predicate} in {short(r)}"))
         elif isinstance(r, R.Transfer):
             if r.target.engine is r.destination:
